@@ -1,0 +1,19 @@
+//go:build !verif
+
+// Package verifhook provides schedule points for the model-checking harness under /verif.
+// With the build tag off (the default) every function here is empty.
+package verifhook
+
+import "sync"
+
+// Enabled reports whether the hooks are compiled in.
+const Enabled = false
+
+// SetHandler is a no-op without the verif build tag.
+func SetHandler(func(name string, obj interface{})) {}
+
+// Point is a no-op without the verif build tag.
+func Point(string, interface{}) {}
+
+// CondYield is a no-op without the verif build tag.
+func CondYield(sync.Locker, string, interface{}) {}
